@@ -110,9 +110,17 @@ func (o *FilterOptimizer) optimizeExpr(expr Expression) *ScanType {
 			return o.optimizeEqualExpr(e)
 		case Gt, Gte:
 			// It may use RANGE or FULL
+			if _, literalOnLeft := e.Left.(*StringExpr); literalOnLeft {
+				// 'lit' > key is key < 'lit'
+				return o.optimizeLtLteExpr(e)
+			}
 			return o.optimizeGtGteExpr(e)
 		case Lt, Lte:
 			// It may use RANGE or FULL
+			if _, literalOnLeft := e.Left.(*StringExpr); literalOnLeft {
+				// 'lit' < key is key > 'lit'
+				return o.optimizeGtGteExpr(e)
+			}
 			return o.optimizeLtLteExpr(e)
 		case In:
 			// It must use MGET
